@@ -84,8 +84,8 @@ type Options struct {
 	// descheduled or briefly frozen goroutine) while everything else carries on
 	// and timers fire.
 	PausePermille int
-	// MapPausePermille > 0: a task about to write a shared map pauses like a
-	// PausePermille pause with this probability (a tenth of it before a read),
+	// MapPausePermille > 0: a task about to write a shared map pauses (1 / 5 / 20 ms)
+	// with this probability (a tenth of it before a read),
 	// so that accesses driven by different timers can meet.
 	MapPausePermille int
 	// SpawnPausePermille > 0: right after a go statement the spawning task is,
@@ -270,7 +270,15 @@ func (s *Sim) dying() {
 }
 
 // Yield is a scheduling point: the current task stays runnable.
-func Yield() {
+func Yield() { yield(true) }
+
+// YieldOnly is a scheduling point at which no pause or long preemption is
+// injected: the points the simulator adds beyond the program's own
+// synchronisation operations (after an Unlock, in front of a watched map
+// access) use it, so that they do not multiply the injected delays.
+func YieldOnly() { yield(false) }
+
+func yield(faults bool) {
 	s := S
 	if s == nil {
 		return
@@ -278,7 +286,7 @@ func Yield() {
 	if s.killed {
 		s.dying()
 	}
-	if s.opts.PausePermille > 0 && !s.cur.pausing {
+	if faults && s.opts.PausePermille > 0 && !s.cur.pausing {
 		if v := s.St.Biased(4, 1000-s.opts.PausePermille, "pause"); v > 0 {
 			s.Pauses++
 			me := s.cur
@@ -289,7 +297,7 @@ func Yield() {
 		}
 	}
 	t := s.cur
-	if s.opts.ParkPermille > 0 {
+	if faults && s.opts.ParkPermille > 0 {
 		if v := s.St.Biased(6, 1000-s.opts.ParkPermille, "park"); v > 0 {
 			t.parkUntil = s.Steps + []int{0, 8, 32, 128, 400, 4000}[v]
 			s.Parks++
@@ -352,7 +360,8 @@ func (s *Sim) access(p uintptr, pin unsafe.Pointer, write bool, site string, isV
 	// is thereby not watched. The entry pins the map so that its address is not
 	// reused within the run (replays must not depend on the collector).
 	ms := s.maps[p]
-	if ms == nil {
+	first := ms == nil
+	if first {
 		if s.maps == nil {
 			s.maps = map[uintptr]*mapState{}
 		}
@@ -362,16 +371,25 @@ func (s *Sim) access(p uintptr, pin unsafe.Pointer, write bool, site string, isV
 	if ms.owner != t {
 		ms.shared = true
 	}
-	if !ms.shared {
-		return
-	}
-	if !ms.hot {
-		if !write {
+	if isVar {
+		// in-place updates are rare: the first one of a variable is watched too
+		// (two tasks growing a fresh slice at the same time), then every one
+		// once a second task has joined
+		if !ms.shared && !first {
 			return
 		}
-		// the first write to a shared map: from here on every access is
-		// watched, this one included (a reader that got here first was not)
-		ms.hot = true
+	} else {
+		if !ms.shared {
+			return
+		}
+		if !ms.hot {
+			if !write {
+				return
+			}
+			// the first write to a shared map: from here on every access is
+			// watched, this one included (a reader that got here first was not)
+			ms.hot = true
+		}
 	}
 	s.MapOps++
 	for _, o := range s.tasks {
@@ -387,13 +405,13 @@ func (s *Sim) access(p uintptr, pin unsafe.Pointer, write bool, site string, isV
 		if v := s.St.Biased(4, 1000-pm, "map-pause"); v > 0 {
 			s.Pauses++
 			t.pausing = true
-			Sleep([]time.Duration{0, time.Millisecond, 20 * time.Millisecond, 300 * time.Millisecond}[v])
+			Sleep([]time.Duration{0, time.Millisecond, 5 * time.Millisecond, 20 * time.Millisecond}[v])
 			t.pausing = false
 			t.mapP = 0
 			return
 		}
 	}
-	Yield()
+	YieldOnly()
 	t.mapP = 0
 }
 
@@ -1073,3 +1091,5 @@ func (s *Sim) noteStuck() {
 func IOCtx(ctx context.Context) context.Context { IOPoint("sql"); return ctx }
 func IODB(db *sql.DB) *sql.DB                   { IOPoint("sql"); return db }
 func IOTx(tx *sql.Tx) *sql.Tx                   { IOPoint("sql"); return tx }
+func IORows(r *sql.Rows) *sql.Rows              { IOPoint("sql"); return r }
+func IORow(r *sql.Row) *sql.Row                 { IOPoint("sql"); return r }
